@@ -8,6 +8,7 @@ use std::sync::Arc;
 pub mod c01;
 pub mod c02;
 pub mod c03;
+pub mod c04;
 pub mod c05;
 pub mod c06;
 pub mod c07;
@@ -15,6 +16,8 @@ pub mod c09;
 pub mod c11;
 pub mod c12;
 pub mod c13;
+pub mod c14;
+pub mod c15;
 pub mod c16;
 
 pub struct Prop {
@@ -32,7 +35,7 @@ pub fn no_extra(_: &Ctx) -> Map<String, Value> {
 }
 
 pub fn all() -> Vec<&'static Prop> {
-    vec![&c01::PROP, &c02::PROP, &c03::PROP, &c05::PROP, &c06::PROP, &c07::PROP, &c09::PROP, &c11::PROP, &c12::PROP, &c13::PROP, &c16::PROP]
+    vec![&c01::PROP, &c02::PROP, &c03::PROP, &c04::PROP, &c05::PROP, &c06::PROP, &c07::PROP, &c09::PROP, &c11::PROP, &c12::PROP, &c13::PROP, &c14::PROP, &c15::PROP, &c16::PROP]
 }
 
 pub fn find(id: &str) -> Option<&'static Prop> {
